@@ -111,6 +111,9 @@ def conform(op, j1, j2, arg, simplify=True):
         c1, c2 = contract(j1, simplify=False), contract(j2, simplify=False)
     except ValueError:
         return "skip", "operand construction failed"
+    from .build import jcontract
+
+    before = (jcontract(c1), jcontract(c2))
     _REC = []
     try:
         try:
@@ -130,6 +133,8 @@ def conform(op, j1, j2, arg, simplify=True):
         rec = _REC
     finally:
         _REC = None
+    if (jcontract(c1), jcontract(c2)) != before:
+        return "mismatch", "the real %s modified its operand contracts in place" % op
     s1, s2 = sym_specs(c1, c2)
     env, outcome, sres, k1, k2 = SA.run(op, s1, s2, list(arg), force=[r[2] for r in rec], simplify=simplify)
     if len(env.trace) != len(rec):
